@@ -176,7 +176,8 @@ def exec_solve(rec):
 
     def base(sp):
         return {'a': 'Solve', 'problem': rec['problem'], 'bc': sp['bc'], 'dform': sp.get('dform', 'view'),
-                'method': sp.get('method', 'condense'), 'elem': name, 'dim': dim, 'S': S0, 'S2': 0,
+                'method': sp.get('method', 'condense'), 'nform': sp.get('nform', 'array'), 'elem': name, 'dim': dim,
+                'S': S0, 'S2': 0,
                 'poly': [p_terms(P, dim) for P in polys], 'loc': [], 'comp': [], 'x': [], 'err': '', 'ndir': 0,
                 'nth': 0}
 
@@ -221,7 +222,9 @@ def exec_solve(rec):
     sysm, err = guarded(assemble, 120)
     if err:
         ev = base(splits[0])
-        ev['err'] = err
+        # NotImplementedError = the library explicitly declines (e.g. no quadrature rule of the requested order):
+        # not an observation about exactness; counted, not judged
+        ev['err'] = 'NotSupported' if err == 'NotImplementedError' else err
         return [ev]
     m, e, basis, A, b0, natural, exact = sysm
     # integer DOF locations: scale S = S0 * 2^j (operation histories halve edges), or 2^S2 on graded grids
@@ -251,7 +254,32 @@ def exec_solve(rec):
             Nfac = np.setdiff1d(bf, Dfac)
             b = b0.copy()
             if len(Nfac) and kind != 'wedge':
-                b = b + natural.assemble(FacetBasis(m, e, facets=Nfac))
+                # the natural boundary part is handed over in every accepted FORM: an index array, or a UNION (tuple /
+                # list / set) of index arrays, boundary names or callables whose members OVERLAP (and may be empty);
+                # every facet must be integrated once
+                nform = sp.get('nform', 'array')
+                mN, sel = m, Nfac
+                if nform != 'array' and len(Nfac) >= 2:
+                    n3 = max(1, len(Nfac) // 3)
+                    A_, B_, C_ = Nfac[:len(Nfac) - n3], Nfac[n3:], Nfac[::2]         # A and B overlap, C overlaps both
+                    E_ = np.array([], dtype=Nfac.dtype)
+                    if nform == 'tuple_arrays':
+                        sel = (A_, B_, C_)
+                    elif nform == 'list_arrays_empty':
+                        sel = [A_, E_, B_, Nfac[-1:]]
+                    elif nform in ('tuple_tags', 'set_tags', 'list_tags_empty'):
+                        tags = {'nat_a': A_, 'nat_b': B_, 'nat_x': C_, 'nat_none': E_}
+                        mN = m.with_boundaries(tags)
+                        sel = {'tuple_tags': ('nat_a', 'nat_b', 'nat_x'), 'set_tags': {'nat_a', 'nat_b', 'nat_x'},
+                               'list_tags_empty': ['nat_a', 'nat_none', 'nat_b']}[nform]
+                    elif nform == 'callables':
+                        mid = m.p[:, m.facets].mean(axis=1)
+
+                        def member(ix):
+                            mm = mid[:, ix]
+                            return lambda x: (x[:, :, None] == mm[:, None, :]).all(axis=0).any(axis=1)
+                        sel = (member(A_), member(B_), Nfac[::2])
+                b = b + natural.assemble(FacetBasis(mN, e, facets=sel))
             if not len(Dfac):
                 return np.asarray(solve(A, b)), 0
             D = basis.get_dofs(Dfac)
@@ -321,7 +349,7 @@ def exec_project(rec):
         return y0, np.asarray(y1), np.asarray(I), edofs, cells
     out, err = guarded(run, 120)
     if err:
-        ev['err'] = err
+        ev['err'] = 'NotSupported' if err == 'NotImplementedError' else err
         return [ev]
     y0, y1, I, edofs, cells = out
     ys = [fx(float(v)) for v in y1]
@@ -450,6 +478,8 @@ def generate(tier, seed):
                     r = {'driver': 'solve', 'kind': kind, 'family': fam, 'elem': name, 'problem': prob,
                          'p': np.asarray(p).astype(int).tolist(), 't': np.asarray(t).astype(int).tolist(), 'poly': poly,
                          'splits': [{'bc': mode, 'dform': form if dsel else 'view', 'method': method, 'dparts': dparts,
+                                     'nform': ['array', 'tuple_arrays', 'tuple_tags', 'list_arrays_empty', 'set_tags',
+                                               'callables', 'list_tags_empty'][(rep + len(recs)) % 7],
                                      'dir': dsel}]}
                     if prob == 'reaction':
                         r['c'] = int(rng.integers(1, 4))
@@ -481,8 +511,9 @@ def generate(tier, seed):
             dparts = [[dsel[j] for j in range(len(dsel)) if assign[j] == q] for q in range(npart)]
             if form == 'dict_overlap':
                 dparts = [sorted(set(part) | {dsel[0]}) for part in dparts]
+        nforms = ['tuple_arrays', 'tuple_tags', 'array', 'list_arrays_empty', 'set_tags', 'callables', 'list_tags_empty']
         return {'bc': 'dirichlet' if wedge else 'mixed', 'dform': form, 'method': methods[k % len(methods)],
-                'dparts': dparts, 'dir': dsel}
+                'nform': nforms[(k + int(rng.integers(0, 7))) % 7], 'dparts': dparts, 'dir': dsel}
 
     # ---- end-to-end HISTORIES: the system is assembled once, then constrained and solved for several different
     # Dirichlet/Neumann splits through enforce / condense / penalize; every solve must be exact, not only the first
@@ -498,6 +529,36 @@ def generate(tier, seed):
                  'p': np.asarray(p).astype(int).tolist(), 't': np.asarray(t).astype(int).tolist(), 'poly': poly,
                  'splits': [rand_split(nb, k, wedge=(kind == 'wedge')) for k in range(5 if th else 4)]}
             recs.append(problem_fields(r, prob))
+    # ---- meshes that were USED and THEN MOVED (Basis / FacetBasis / finder / orientation / facets_satisfying(normal=)
+    # on m, then scaled / translated / mirrored / morphed): the exact solution is expressed in the moved coordinates;
+    # control = the same history without the prior use
+    MOVES = [[['scaled', 0, 2]], [['translated', 1, 1]], [['mirrored', 0]], [['scaled', 1, 2], ['translated', 0, 3]],
+             [['morphed', 0, 1, 1]], [['translated', 0, 2], ['mirrored', 1], ['scaled', 0, 2]]]
+    for en, (name, (kind, deg, S, vector)) in enumerate(SOLVE_ELEMS.items()):
+        ms = [x for x in cache[(kind, 0)] if x[3] == 'affine']
+        for rep in range(3 if th else 1):
+            fam, p, t, cls = ms[(en + rep + 1) % len(ms)]
+            dim = np.asarray(p).shape[0]
+            if kind == 'line':
+                moves = [mv for mv in MOVES if all(op[0] != 'morphed' for op in mv)]
+            else:
+                moves = MOVES
+            mv = moves[(en + rep) % len(moves)]
+            prob = 'elasticity' if vector else ['poisson', 'reaction'][(en + rep) % 2]
+            poly = [p_terms(p_rand(dim, deg, rng), dim) for _ in range(dim if vector else 1)]
+            nb = _nbfacets(kind, p, t)
+            split = rand_split(nb, en + rep, wedge=(kind == 'wedge'))
+            split['method'] = 'condense' if split['method'] == 'penalize' else split['method']
+            for used in (1, 0):
+                spec = MO.from_pt(kind, p, t)
+                spec['ops'] = ([['use']] if used else []) + mv
+                r = {'driver': 'solve', 'kind': kind, 'family': fam + ('-used-then-moved' if used else '-moved'), 'elem': name,
+                     'problem': prob, 'mesh': spec, 'poly': poly, 'splits': [split]}
+                if prob == 'reaction':
+                    r['c'] = 2
+                if prob == 'elasticity':
+                    r['lam'], r['mu'] = 1, 2
+                recs.append(r)
     # ---- meshes reached through OPERATION HISTORIES (refined(marked) ... ; harness/meshops.py, the C03 families):
     # exact solutions of the element's degree, i.e. >= 3 for the elements with several DOFs per edge
     from .c03 import history_specs
